@@ -62,6 +62,14 @@ func init() {
 								}
 							}
 						}
+						if !good {
+							// `if !flag { flag = … }`: the store only happens while the flag is still off
+							for _, ft := range factsOf(guardsAt(info, stack)) {
+								if fid, ok := unparen(ft.E).(*ast.Ident); ok && info.ObjectOf(fid) == flag && !ft.True {
+									good = true
+								}
+							}
+						}
 						c.Check(good, "R14h", "unmarshal:mode-store#"+itoa(n), as.Pos(), "store to the mode flag `%s` keeps it on once set (true or `%s || …`) — otherwise an array line after a non-array line switches back to table mode and the elements collected so far are lost", c.src(as), flag.Name())
 					}
 					return true
@@ -137,8 +145,32 @@ func init() {
 					}
 					return "", false, false
 				}
+				defs := localDefs(info, fd.Body)
+				// expand: replace single-definition boolean locals by their definition
+				var expand func(e ast.Expr, depth int) ast.Expr
+				expand = func(e ast.Expr, depth int) ast.Expr {
+					e = unparen(e)
+					if depth > 6 {
+						return e
+					}
+					switch x := e.(type) {
+					case *ast.Ident:
+						if v, ok := info.ObjectOf(x).(*types.Var); ok && v != B && types.Identical(v.Type(), types.Typ[types.Bool]) {
+							if ds := defs[v]; len(ds) == 1 && ds[0] != nil {
+								return expand(ds[0], depth+1)
+							}
+						}
+					case *ast.UnaryExpr:
+						return &ast.UnaryExpr{OpPos: x.OpPos, Op: x.Op, X: expand(x.X, depth+1)}
+					case *ast.BinaryExpr:
+						if x.Op == token.LAND || x.Op == token.LOR {
+							return &ast.BinaryExpr{X: expand(x.X, depth+1), OpPos: x.OpPos, Op: x.Op, Y: expand(x.Y, depth+1)}
+						}
+					}
+					return e
+				}
 				n := 0
-				ast.Inspect(fd.Body, func(nd ast.Node) bool {
+				walkStack(fd.Body, func(nd ast.Node, stack []ast.Node) bool {
 					var lhs []ast.Expr
 					var rhs []ast.Expr
 					switch s := nd.(type) {
@@ -147,6 +179,33 @@ func init() {
 					default:
 						return true
 					}
+					// the store happens only under its guards: the effective value is guards ∧ rhs
+					var guardTerms []ast.Expr
+					for _, ft := range factsOf(guardsAt(info, stack)) {
+						var modelOK func(e ast.Expr) bool
+						modelOK = func(e ast.Expr) bool {
+							e = unparen(e)
+							if _, _, ok := atom(e); ok {
+								return true
+							}
+							switch y := e.(type) {
+							case *ast.UnaryExpr:
+								return y.Op == token.NOT && modelOK(y.X)
+							case *ast.BinaryExpr:
+								return (y.Op == token.LAND || y.Op == token.LOR) && modelOK(y.X) && modelOK(y.Y)
+							}
+							return false
+						}
+						modelled := modelOK(expand(ft.E, 0))
+						if !modelled {
+							continue // dropping a conjunct only makes the condition weaker (never hides a violation)
+						}
+						t := expand(ft.E, 0)
+						if !ft.True {
+							t = &ast.UnaryExpr{Op: token.NOT, X: t}
+						}
+						guardTerms = append(guardTerms, t)
+					}
 					for i, l := range lhs {
 						id, ok := unparen(l).(*ast.Ident)
 						if !ok || info.ObjectOf(id) != B || len(rhs) != len(lhs) {
@@ -154,7 +213,10 @@ func init() {
 						}
 						n++
 						key := "marshal:" + B.Name() + "-store#" + itoa(n)
-						e := rhs[i]
+						e := expand(rhs[i], 0)
+						for _, g := range guardTerms {
+							e = &ast.BinaryExpr{X: g, Op: token.LAND, Y: e}
+						}
 						// collect atoms
 						seen := map[string]bool{}
 						var atoms []string
@@ -178,12 +240,12 @@ func init() {
 						}
 						collect(e)
 						if len(atoms) > 8 {
-							c.Undecided("R14i", key, e.Pos(), "too many atoms in %s", c.src(e))
+							c.Undecided("R14i", key, rhs[i].Pos(), "too many atoms in %s", c.src(rhs[i]))
 							continue
 						}
 						tt, unk := truthTable(e, atoms, atom)
 						if len(unk) > 0 {
-							c.Undecided("R14i", key, e.Pos(), "store %s = %s contains a leaf outside the model: %v", B.Name(), c.src(e), unk)
+							c.Undecided("R14i", key, rhs[i].Pos(), "store %s = %s contains a leaf outside the model: %v", B.Name(), c.src(rhs[i]), unk)
 							continue
 						}
 						bad := ""
@@ -204,9 +266,9 @@ func init() {
 							}
 						}
 						if bad != "" {
-							c.Viol("R14i", key, e.Pos(), "%s = %s can be %s: the first cell of every row of a structured table is trimmed, and dropped when empty (guard at %s) — rows shift left", B.Name(), c.src(e), bad, c.pos(guardPos))
+							c.Viol("R14i", key, rhs[i].Pos(), "%s = %s can be %s: the first cell of every row of a structured table is trimmed, and dropped when empty (guard at %s) — rows shift left", B.Name(), c.src(rhs[i]), bad, c.pos(guardPos))
 						} else {
-							c.OK("R14i", key, e.Pos(), "%s = %s is false unless the input type is generic or str", B.Name(), c.src(e))
+							c.OK("R14i", key, rhs[i].Pos(), "%s = %s is false unless the input type is generic or str", B.Name(), c.src(rhs[i]))
 						}
 					}
 					return true
